@@ -181,3 +181,17 @@ _EXTRA3 = {
 }
 for _k, _v in _EXTRA3.items():
     PROPS[_k]['text'] = PROPS[_k]['text'].rstrip() + _v
+
+_EXTRA4 = {
+ 'C02': ' MMX bilinear scanlines are covered by C02-R17 too (scalar-replaced IR); all nearest scanlines wrap the coordinate with a loop (C02-R18).',
+ 'C03': ' After a budget loop the word the cursor is left on is touched only under a test of the remaining count (C03-R8 = C04-R11).',
+ 'C04': ' Tail accesses after budget loops need a test of the remaining count (C04-R11, 13 sites); a failed image setter leaves filter kind and parameter block in step (C15-R9).',
+ 'C05': ' Every advance of the minuend cursor in subtract reloads the left fence (C05-R8); each source line of pixman-region.c has the same signedness in the 16- and the 32-bit instantiation (C05-R9, 392 lines).',
+ 'C07': ' The two "entirely out of range" tests of translate pair the same limits with the same edges (C07-R8).',
+ 'C08': ' C08-R13 covers the MMX bilinear scanlines as well.',
+ 'C10': ' The property_changed hook of a bits image never skips re-installing the accessors because they are already installed (C10-R13).',
+ 'C14': ' No property_changed hook returns early on a field it installs itself (C14-R8).',
+ 'C19': ' Tail accesses after budget loops (C19-R10 = C04-R11).',
+}
+for _k, _v in _EXTRA4.items():
+    PROPS[_k]['text'] = PROPS[_k]['text'].rstrip() + _v
